@@ -295,9 +295,37 @@ def r4_5(ctx):
     ctx.end()
 
 
+def r4_6(ctx):
+    """'if the task fixes its allowed worker IDs, the worker is one of them': the constructor keeps the fixed-ID lists as they are
+    given -- in particular an *empty* list (nobody is allowed) must not turn into None (no restriction), and None must stay None."""
+    ctx.begin("R4.6", "BaseTask.__init__ keeps the fixed-ID lists as given (empty list stays a list, None stays None)", floor=6)
+    c = ctx.repo.method(TASK, "__init__")
+    for pname in ("fixing_allocating_worker_id_list", "fixing_allocating_facility_id_list"):
+        ctx.require(pname in c.params, f"BaseTask.__init__ has no parameter {pname}")
+        for label, given in (("empty list", ListV([], True, "list")), ("None", Const(None)), ("one ID", ListV([Const("w1")], True, "list"))):
+            I = mk_interp(ctx)
+            for st, ex in I.run_function(c, bind={"__defaults__": True, pname: given}):
+                if ex is not None and ex[0] == "raise":
+                    continue
+                v = st.heap.get(("self", pname))
+                ctx.instance(construct(c, f"{pname}:{label}"), sample={"stored": repr(v)})
+                if label == "None":
+                    ok = isinstance(v, Const) and v.v is None
+                elif label == "empty list":
+                    ok = isinstance(v, ListV) and not v.items
+                else:
+                    ok = isinstance(v, ListV) and len(v.items) == 1 and isinstance(v.items[0], Const) and v.items[0].v == "w1"
+                if not ok:
+                    ctx.violation(construct(c, f"fixed-id-list:{pname}"), c.loc(), f"BaseTask(..., {pname}=<{label}>) stores `{v!r}`: " +
+                                  ("an empty list means that nobody is allowed; stored as None it means no restriction, and the task takes any eligible resource"
+                                   if label == "empty list" else "the restriction the caller gave is changed by the constructor"))
+    ctx.end()
+
+
 def run(ctx):
     r4_4(ctx)
     r4_5(ctx)
+    r4_6(ctx)
     r4_1(ctx)
     r4_2(ctx)
     r4_3(ctx)
